@@ -1,7 +1,293 @@
+import VivModel.Model.Util
 import VivModel.Model.Table
+import VivModel.Lemmas.Table
+import VivModel.Props.C11
+/-! C12 — a view read returns exactly the requested, filtered rows and columns.
+
+`get` is `PopulationView.get` as it exists (`.loc[index]`, view query, extra query, column check,
+projection); `mkView` is `PopulationManager._get_view` (the default `tracked == True` filter) and
+`subview` is `PopulationView.subview`.
+
+* `get_rows` / `get_order`   the simulants returned are the requested ones that pass the view filter and
+                              the extra filter, in the requested order (with their multiplicity);
+* `get_spec`                  … and – unless the view has the `tracked` column or its own query
+                              constrains `tracked` – only tracked simulants, for every shape of user query
+                              (`tracked_or_example`: the input of the repaired finding F23);
+* `get_columns`, `get_values` exactly the view's columns, holding the table's current cells;
+* `get_after_updates`         composition with C11's frame rule;
+* `subview_inherits`, `subview_rejected`, `get_missing_column_err`, `get_unknown_row_err`.
+
+Interpretation fixed in DESIGN.md: a view query that itself refers to the column `tracked` is the
+documented way to see untracked simulants and is not flagged. -/
 namespace Viv.Props.C12
 open Viv.Table
 
-theorem placeholder_C12 : (createBegin {} 0).2 = [] := by decide
+/-- `tracked == True` for simulant `r` -/
+def isTracked (t : Table) (r : Nat) : Bool := trackedTrue.eval t r
+
+/-- what a successful read consists of -/
+theorem get_ok {m : Mgr} {v : View} {idx : List Nat} {extra : Pred} {res : Table}
+    (h : get m v idx extra = .ok res) :
+    (∀ r ∈ idx, r ∈ m.table.rows) ∧
+    res.rows = idx.filter (fun r => v.filter.eval m.table r && extra.eval m.table r) ∧
+    (∀ c ∈ viewColumns m.table v, ∃ k, m.table.col? c = some k) ∧
+    res.cols = (viewColumns m.table v).filterMap (fun c => (m.table.col? c).map
+      (fun k => ⟨k.name, k.dtype, locCells m.table.rows k.cells res.rows⟩)) := by
+  unfold Table.get at h
+  simp only at h
+  split at h
+  · cases h
+  · rename_i h1
+    split at h
+    · cases h
+    · split at h
+      · cases h
+      · rename_i h3
+        cases h
+        refine ⟨?_, ?_, ?_, rfl⟩
+        · intro r hr
+          simp only [List.any_eq_true, not_exists, not_and, Bool.not_eq_true'] at h1
+          simpa using h1 r hr
+        · cases idx with
+          | nil => rfl
+          | cons a as => rfl
+        · intro c hc
+          simp only [List.any_eq_true, not_exists, not_and] at h3
+          have := h3 c hc
+          cases hk : m.table.col? c with
+          | none => simp [hk] at this
+          | some k => exact ⟨k, rfl⟩
+
+/-- **Rows.** The simulants returned are exactly the requested ones that satisfy the view's filter and
+the extra filter – in the requested order, each as often as requested. -/
+theorem get_rows {m : Mgr} {v : View} {idx : List Nat} {extra : Pred} {res : Table}
+    (h : get m v idx extra = .ok res) :
+    res.rows = idx.filter (fun r => v.filter.eval m.table r && extra.eval m.table r) :=
+  (get_ok h).2.1
+
+/-- **Order.** The returned labels are a sub-sequence of the request. -/
+theorem get_order {m : Mgr} {v : View} {idx : List Nat} {extra : Pred} {res : Table}
+    (h : get m v idx extra = .ok res) : res.rows.Sublist idx := by
+  rw [get_rows h]; exact List.filter_sublist
+
+/-- the filter `_get_view` builds means "user query, and tracked if required" – for every user query -/
+theorem mkView_filter (cols : List String) (q : Pred) (t : Table) (r : Nat) :
+    (mkView cols q).filter.eval t r = (q.eval t r && (!needTracked cols q || isTracked t r)) := by
+  unfold mkView needTracked isTracked
+  by_cases h1 : (!cols.isEmpty && !cols.contains "tracked") = true
+  · rw [if_pos h1, h1]
+    by_cases h2 : q = .tt
+    · subst h2; simp [Pred.eval, Pred.mentionsTracked]
+    · rw [if_neg h2]
+      by_cases h3 : q.mentionsTracked = true
+      · simp [h3]
+      · have h3' : q.mentionsTracked = false := by simpa using h3
+        simp only [h3', Bool.not_false, if_true, Bool.true_and, Bool.not_true, Bool.false_or]
+        rfl
+  · rw [if_neg h1]
+    have : (!cols.isEmpty && !cols.contains "tracked") = false := by simpa using h1
+    simp only [this, Bool.false_and, Bool.not_false, Bool.true_or, Bool.and_true]
+
+/-- **Specification of a read** (membership): simulant `r` is returned iff it was requested, satisfies
+the view's own query and the extra query, and – when the view neither has the `tracked` column nor
+mentions it in its query – is tracked. -/
+theorem get_spec {m : Mgr} {cols : List String} {q extra : Pred} {idx : List Nat} {res : Table}
+    (h : get m (mkView cols q) idx extra = .ok res) (r : Nat) :
+    r ∈ res.rows ↔
+      (r ∈ idx ∧ q.eval m.table r = true ∧ extra.eval m.table r = true ∧
+        (needTracked cols q = true → isTracked m.table r = true)) := by
+  rw [get_rows h, List.mem_filter, mkView_filter cols q]
+  simp only [Bool.and_eq_true, Bool.or_eq_true, Bool.not_eq_true']
+  constructor
+  · rintro ⟨hi, ⟨hq', ht⟩, he⟩
+    refine ⟨hi, hq', he, fun hn => ?_⟩
+    rcases ht with ht | ht
+    · rw [hn] at ht; cases ht
+    · exact ht
+  · rintro ⟨hi, hq', he, ht⟩
+    refine ⟨hi, ⟨hq', ?_⟩, he⟩
+    cases hn : needTracked cols q with
+    | false => left; rfl
+    | true => right; exact ht hn
+
+/-- views that have the `tracked` column, or whose query mentions it, or that span the whole table see
+untracked simulants too: their filter is the user's query, whatever its shape -/
+theorem mkView_filter_untracked (cols : List String) (q : Pred) (h : needTracked cols q = false) :
+    (mkView cols q).filter = q := by
+  unfold mkView
+  unfold needTracked at h
+  by_cases h1 : (!cols.isEmpty && !cols.contains "tracked") = true
+  · rw [if_pos h1]
+    rw [h1] at h
+    have hm : q.mentionsTracked = true := by simpa using h
+    have : q ≠ .tt := by intro e; subst e; simp [Pred.mentionsTracked] at hm
+    rw [if_neg this]
+    simp [hm]
+  · rw [if_neg h1]
+
+/-- the input of the repaired finding F23 (`tracked-filter-or-precedence`): three simulants, simulant 2
+untracked; the view `get_view(["a"], "a > 2 or b < 1")` neither has nor mentions `tracked` and no longer
+returns simulant 2 (before commit c38dfdde the appended text bound to the last operand of the `or`). -/
+def wTable : Table :=
+  ⟨[0, 1, 2], [⟨"tracked", .bool, [.bool true, .bool true, .bool false]⟩, ⟨"a", .int, [.int 1, .int 2, .int 3]⟩,
+               ⟨"b", .flt, [.flt 1 1, .flt 2 0, .flt 0 0]⟩]⟩
+def wQuery : Pred := .or (.atom "a" .gt (.int 2)) (.atom "b" .lt (.int 1))
+
+theorem tracked_or_example :
+    needTracked ["a"] wQuery = true ∧ isTracked wTable 2 = false ∧
+    (get { pop := some wTable } (mkView ["a"] wQuery) [0, 1, 2] .tt).map (·.rows) = .ok [0] := by
+  decide
+
+/-- **Columns.** Exactly the view's columns, in the view's order. -/
+theorem get_columns {m : Mgr} {v : View} {idx : List Nat} {extra : Pred} {res : Table}
+    (h : get m v idx extra = .ok res) : res.names = viewColumns m.table v := by
+  obtain ⟨_, _, hex, hcols⟩ := get_ok h
+  unfold Table.names
+  rw [hcols]
+  generalize viewColumns m.table v = vc at hex
+  induction vc with
+  | nil => rfl
+  | cons c cs ih =>
+    obtain ⟨k, hk⟩ := hex c List.mem_cons_self
+    simp only [List.filterMap_cons, hk, Option.map_some, List.map_cons, (col?_some hk).2]
+    rw [ih (fun c' hc' => hex c' (List.mem_cons_of_mem _ hc'))]
+
+theorem cellOf_locCells {rows : List Nat} {cells : List Val} {keep : List Nat} {r : Nat} (hr : r ∈ keep) :
+    cellOf keep (locCells rows cells keep) r = some ((cellOf rows cells r).getD .null) := by
+  rw [cellOf_of_mem hr]
+  unfold locCells
+  have hlt : keep.idxOf r < keep.length := List.idxOf_lt_length_iff.mpr hr
+  rw [List.getElem?_map, List.getElem?_eq_getElem hlt, List.getElem_idxOf hlt]
+  rfl
+
+/-- **Values.** Every returned cell is the table's current cell of that simulant and column. -/
+theorem get_values {m : Mgr} {v : View} {idx : List Nat} {extra : Pred} {res : Table}
+    (hwf : m.table.WF) (h : get m v idx extra = .ok res) (r : Nat) (hr : r ∈ res.rows) (c : String)
+    (hc : c ∈ viewColumns m.table v) : res.cell? r c = m.table.cell? r c := by
+  obtain ⟨hidx, hrows, hex, hcols⟩ := get_ok h
+  have hrt : r ∈ m.table.rows := hidx r (by rw [hrows] at hr; exact (List.mem_filter.mp hr).1)
+  obtain ⟨k, hk⟩ := hex c hc
+  have hres : res.col? c = some ⟨k.name, k.dtype, locCells m.table.rows k.cells res.rows⟩ := by
+    unfold Table.col?
+    rw [hcols]
+    generalize viewColumns m.table v = vc at hex hc
+    induction vc with
+    | nil => cases hc
+    | cons c' cs ih =>
+      obtain ⟨k', hk'⟩ := hex c' List.mem_cons_self
+      simp only [List.filterMap_cons, hk', Option.map_some, List.find?_cons]
+      by_cases e : c' = c
+      · subst e
+        rw [hk] at hk'; cases hk'
+        simp [(col?_some hk).2]
+      · have : (k'.name == c) = false := by simpa [(col?_some hk').2] using e
+        simp only [this]
+        rcases List.mem_cons.mp hc with rfl | hc'
+        · exact absurd rfl e
+        · exact ih (fun x hx => hex x (List.mem_cons_of_mem _ hx)) hc'
+  unfold Table.cell?
+  rw [hres, hk]
+  simp only
+  rw [cellOf_locCells hr]
+  obtain ⟨val, hval⟩ := cellOf_isSome hrt (hwf.lens k (col?_some hk).1)
+  rw [hval]; rfl
+
+/-- **Reads see the latest writes** (composition with C11 `update_frame`): after a successful update, a
+read returns the supplied value for every addressed cell and the previous value for every other. -/
+theorem get_after_updates {m m' : Mgr} {w v : View} {u : Upd} {f : Frame} {idx : List Nat} {extra : Pred}
+    {res : Table} (hwf : m.table.WF) (hn : C11.Mgr.Normal m)
+    (hc : coerce u (viewColumns m.table w) = .ok f) (hf : f.WF) (hu : update m w u = .ok m')
+    (h : get m' v idx extra = .ok res) (r : Nat) (hr : r ∈ res.rows) (c : String)
+    (hcv : c ∈ viewColumns m'.table v) :
+    res.cell? r c = if r ∈ f.rows ∧ c ∈ f.names then f.value? r c else m.table.cell? r c := by
+  rw [get_values (C11.update_preserves_wf hwf hn hc hf hu) h r hr c hcv]
+  exact C11.update_frame hwf hn hc hf hu r c
+
+/-- **Sub-views.** A sub-view has the requested columns, which are a non-empty subset of the parent's,
+and filters with the parent's query (to which the default tracked filter is added when the sub-view
+drops the `tracked` column). -/
+theorem subview_inherits {t : Table} {v sv : View} {cols : List String} (h : subview t v cols = .ok sv) :
+    sv = mkView cols v.filter ∧ sv.cols = cols ∧ cols ≠ [] ∧ (∀ c ∈ cols, c ∈ viewColumns t v) := by
+  unfold subview at h
+  split at h
+  · cases h
+  · rename_i hcond
+    cases h
+    simp only [Bool.or_eq_true, not_or, Bool.not_eq_true] at hcond
+    refine ⟨rfl, ?_, by simpa using hcond.1, ?_⟩
+    · unfold mkView; split <;> (try split) <;> (try split) <;> rfl
+    · intro c hc
+      have := hcond.2
+      simp only [List.any_eq_false] at this
+      simpa using this c hc
+
+/-- a sub-view of a view that already filters on tracked filters exactly like its parent -/
+theorem subview_same_filter {t : Table} {v sv : View} {cols : List String} (h : subview t v cols = .ok sv)
+    (hm : v.filter.mentionsTracked = true) : sv.filter = v.filter := by
+  obtain ⟨rfl, _, _, _⟩ := subview_inherits h
+  unfold mkView
+  split
+  · have : v.filter ≠ .tt := by intro e; rw [e] at hm; simp [Pred.mentionsTracked] at hm
+    rw [if_neg this]; simp [hm]
+  · rfl
+
+/-- no columns, or a column the parent does not have: rejected -/
+theorem subview_rejected (t : Table) (v : View) (cols : List String)
+    (h : cols = [] ∨ ∃ c ∈ cols, c ∉ viewColumns t v) : subview t v cols = .error .subview := by
+  unfold subview
+  have : (cols.isEmpty || cols.any fun c => !(viewColumns t v).contains c) = true := by
+    rcases h with rfl | ⟨c, hc, hn⟩
+    · rfl
+    · simp only [Bool.or_eq_true, List.any_eq_true]
+      right; exact ⟨c, hc, by simpa using hn⟩
+  rw [if_pos this]
+
+/-- **A column that does not exist yet is an error**, never a silent omission. -/
+theorem get_missing_column_err (m : Mgr) (v : View) (idx : List Nat) (extra : Pred)
+    (h : ∃ c ∈ viewColumns m.table v, c ∉ m.table.names) : ∃ e, get m v idx extra = .error e := by
+  cases hg : get m v idx extra with
+  | error e => exact ⟨e, rfl⟩
+  | ok res =>
+    obtain ⟨c, hc, hn⟩ := h
+    obtain ⟨k, hk⟩ := (get_ok hg).2.2.1 c hc
+    rw [col?_none_iff.mpr hn] at hk; cases hk
+
+/-- requesting a simulant that does not exist is an error -/
+theorem get_unknown_row_err (m : Mgr) (v : View) (idx : List Nat) (extra : Pred)
+    (h : ∃ r ∈ idx, r ∉ m.table.rows) : get m v idx extra = .error .unknownRow := by
+  obtain ⟨r, hr, hn⟩ := h
+  have : (idx.any fun r => !m.table.rows.contains r) = true := by
+    simp only [List.any_eq_true]; exact ⟨r, hr, by simpa using hn⟩
+  unfold Table.get
+  simp only [this, if_true]
+
+/-- an empty request returns no rows and the view's columns (no query is evaluated) -/
+theorem get_empty_index (m : Mgr) (v : View) (extra : Pred)
+    (h : ∀ c ∈ viewColumns m.table v, c ∈ m.table.names) :
+    ∃ res, get m v [] extra = .ok res ∧ res.rows = [] ∧ res.names = viewColumns m.table v := by
+  have hno : ((viewColumns m.table v).any fun c => (m.table.col? c).isNone) = false := by
+    simp only [List.any_eq_false]
+    intro c hc
+    cases hk : m.table.col? c with
+    | none => exact absurd (h c hc) (col?_none_iff.mp hk)
+    | some k => simp
+  have hg : ∃ res, get m v [] extra = .ok res := by
+    unfold Table.get
+    simp [hno]
+  obtain ⟨res, hres⟩ := hg
+  exact ⟨res, hres, by rw [get_rows hres]; rfl, get_columns hres⟩
+
+/-! ### Non-vacuity -/
+
+def exM : Mgr := { pop := some wTable }
+/-- a view over a column subset with a query, read with a permuted partial index and an extra query -/
+example : get exM (mkView ["b", "a"] (.atom "a" .ge (.int 1))) [2, 0, 1] (.atom "b" .le (.flt 3 1))
+    = .ok ⟨[0], [⟨"b", .flt, [.flt 1 1]⟩, ⟨"a", .int, [.int 1]⟩]⟩ := by decide
+example : exM.table.WF := ⟨by decide, by decide, by decide⟩
+/-- a view that has the tracked column sees the untracked simulant -/
+example : (get exM (mkView ["a", "tracked"] .tt) [2, 1] .tt).map (·.rows) = .ok [2, 1] := by decide
+/-- a column that does not exist yet -/
+example : get exM (mkView ["a", "zz"] .tt) [0] .tt = .error .noColumn := by decide
+example : subview exM.table (mkView ["a", "tracked"] .tt) ["a"] = .ok ⟨["a"], trackedTrue⟩ := by decide
 
 end Viv.Props.C12
